@@ -180,6 +180,10 @@ func runC16(c *core.Ctx) {
 					fail("Stack.Peek", fmt.Sprintf("deep phase: Stack.Peek()=(%d,%v) want %d", v, ok, sm[len(sm)-1]))
 					return
 				}
+				if v, ok := q.Peek(); !ok || v != qm[0] {
+					fail("Queue.Peek", fmt.Sprintf("deep phase: Queue.Peek()=(%d,%v) want %d with %d values inside", v, ok, qm[0], len(qm)))
+					return
+				}
 			}
 		}
 		c.Count("deep_phases", 1)
@@ -189,6 +193,10 @@ func runC16(c *core.Ctx) {
 	}
 	// final drain: everything comes out in order, then empty behaviour
 	for len(qm) > 0 {
+		if v, ok := q.Peek(); !ok || v != qm[0] {
+			fail("Queue.Peek", fmt.Sprintf("final drain: Queue.Peek()=(%d,%v), next Dequeue must give %d (%d values left)", v, ok, qm[0], len(qm)))
+			return
+		}
 		v, ok := q.Dequeue()
 		if !ok || v != qm[0] {
 			fail("Dequeue:order", fmt.Sprintf("final drain: Dequeue=(%d,%v) want %d", v, ok, qm[0]))
@@ -197,6 +205,10 @@ func runC16(c *core.Ctx) {
 		qm = qm[1:]
 	}
 	for len(sm) > 0 {
+		if v, ok := st.Peek(); !ok || v != sm[len(sm)-1] {
+			fail("Stack.Peek", fmt.Sprintf("final drain: Stack.Peek()=(%d,%v), next Pop must give %d", v, ok, sm[len(sm)-1]))
+			return
+		}
 		v, ok := st.Pop()
 		if !ok || v != sm[len(sm)-1] {
 			fail("Pop:order", fmt.Sprintf("final drain: Pop=(%d,%v) want %d", v, ok, sm[len(sm)-1]))
@@ -211,6 +223,39 @@ func runC16(c *core.Ctx) {
 	if v, ok := st.Pop(); ok || v != 0 {
 		fail("Pop:empty", "drained stack not empty")
 		return
+	}
+	// other element types: zero-size, large (> 256 bytes), pointer-carrying
+	if c.Index%10 == 4 {
+		type bigT [40]int64
+		var bs lists.Stack[bigT]
+		var bq lists.Queue[bigT]
+		var zs lists.Stack[struct{}]
+		var ss lists.Stack[string]
+		k := r.Range(1, 40)
+		if p, pv := core.Catch(func() {
+			for i := 0; i < k; i++ {
+				bs.Push(bigT{int64(i), 1: int64(-i)})
+				bq.Enqueue(bigT{int64(i)})
+				zs.Push(struct{}{})
+				ss.Push(fmt.Sprint(i))
+			}
+			for i := k - 1; i >= 0; i-- {
+				v, ok := bs.Pop()
+				w, ok2 := bq.Dequeue()
+				_, ok3 := zs.Pop()
+				sv, ok4 := ss.Pop()
+				if !ok || !ok2 || !ok3 || !ok4 || v[0] != int64(i) || v[1] != int64(-i) || w[0] != int64(k-1-i) || sv != fmt.Sprint(i) {
+					panic(fmt.Sprintf("wrong value at step %d: %v %v %q", i, v[:2], w[0], sv))
+				}
+			}
+			if _, ok := bs.Pop(); ok {
+				panic("big-element stack not empty")
+			}
+		}); p {
+			fail("element-types", fmt.Sprintf("Stack/Queue over a 320-byte / zero-size / string element type: %v", pv))
+			return
+		}
+		c.Count("other_element_types", 1)
 	}
 	c.Count("drained_to_empty", int64(emptied))
 	c.Count("refilled_after_empty", int64(refilled))
